@@ -205,7 +205,7 @@ func cmdSweep(args []string) {
 		r := VerifyFunc(pr, eff, pr.Funcs[k], VerifyOpts{View: "C01"})
 		reps[k] = r
 		for _, o := range r.Obls {
-			if o.Kind == "safety" || o.Kind == "call.pre" || o.Kind == "decreases" {
+			if !o.Cover {
 				all = append(all, o)
 			}
 		}
@@ -218,7 +218,7 @@ func cmdSweep(args []string) {
 		n, bad := 0, 0
 		var fails []string
 		for _, o := range r.Obls {
-			if o.Result == nil || !(o.Kind == "safety" || o.Kind == "call.pre" || o.Kind == "decreases") {
+			if o.Result == nil || o.Cover {
 				continue
 			}
 			n++
